@@ -26,7 +26,7 @@ ASSUMPTIONS = [
     "full speed over UTMI, tx_ready = 1, line idle, VBUS present, connect = 1; slotted host (40-cycle slots), host ACKs only "
     "data the device sent, no lone handshakes, no SET_ADDRESS; device answers must end before the host's ACK offset "
     "(requests for more than ~18 descriptor bytes are therefore outside the script space)",
-    "tx stream: always valid, n-th byte = base + n (base symbolic), no `last`; rx.ready free every cycle",
+    "tx stream: valid free every cycle (producer timing), n-th byte = base + n (base symbolic), no `last`; rx.ready free every cycle",
     "max_packet_size = 8 for the data/status endpoints (constructor parameter); EP0 keeps the class's default of 64",
 ]
 BOUNDS = "handler: BMC K=8, everything free.  device: BMC from reset over scripted sequences of 2-3 transactions (K = 40 N + 12); " \
@@ -87,6 +87,7 @@ class SerialHarness(Harness):
         self.base = self.inp("tx_base", 8, const=True)
         self.k = self.inp("k", 4, const=True)
         self.rx_ready = self.inp("rx_ready", 1)
+        self.tx_valid = self.inp("tx_valid", 1)               # producer back-pressure pattern of the tx stream, free
         if tog0:
             # symbolic pre-state of one register: the OUT endpoint's expected data toggle (and the monitor's copy) start at
             # t0 -- the state after an odd / even number of accepted OUT packets, without spending a slot on it
@@ -94,7 +95,7 @@ class SerialHarness(Harness):
             self.sym_reg("expected_data_toggle", "t0")
             self.sym_reg("g_out_toggle", "t0")
         names = ["device_descriptor", "line_coding_data_ack", "line_coding_status", "other_requests_stalled",
-                 "rx_order", "rx_count", "rx_lost", "tx_order", "out_handshake"]
+                 "rx_order", "rx_count", "rx_lost", "tx_order", "tx_progress", "out_handshake"]
         self.v = {n: self.viol(n) for n in names}
         self.c = {n: self.cover(n) for n in ["descriptor", "line_coding_done", "stalled_class", "stalled_vendor",
                                              "rx_byte", "tx_packet", "tx_second_packet", "rx_tracked"]}
@@ -209,7 +210,7 @@ class SerialHarness(Harness):
         # ---- tx stream -> EP4 IN
         tx = dut.tx
         fed = Signal(8)                  # bytes taken from the tx stream
-        m.d.comb += [tx.valid.eq(1), tx.payload.eq(self.base + fed), tx.last.eq(0)]
+        m.d.comb += [tx.valid.eq(self.tx_valid), tx.payload.eq(self.base + fed), tx.last.eq(0)]
         with m.If(tx.valid & tx.ready):
             m.d.usb += fed.eq(fed + 1)
         in4 = (h.cur_kind == KIND_IN) & to_us & (ep == 4)
@@ -222,6 +223,13 @@ class SerialHarness(Harness):
         for j in range(8):
             bad = bad | ((j < plen) & (spy.bytes[j] != (self.base + h_cnt + j)[0:8]))
         m.d.comb += self.v["tx_order"].eq(judge & in4 & spy.is_data & (~pid_matches | bad | (plen > 8)))
+        # progress: a full packet's worth of bytes (max_packet_size = 8) that the device had accepted from the tx stream before
+        # this IN transaction began, and that the host has not acknowledged yet, must be offered now -- not a NAK, and
+        # not "never" (whatever the timing of the producer's bytes relative to the host's ACKs was)
+        owed_at_start = Signal()
+        with m.If(h.t == 0):
+            m.d.usb += owed_at_start.eq((fed - h_cnt)[0:8] >= 8)
+        m.d.comb += self.v["tx_progress"].eq(judge & in4 & owed_at_start & ~(spy.is_data & (plen == 8)))
         with m.If(judge & in4 & spy.is_data & pid_matches & h.cur_flag):
             m.d.usb += [h_tog.eq(~h_tog), h_cnt.eq(h_cnt + plen)]
         with m.If(clear_in4):
@@ -262,6 +270,7 @@ class SerialHarness(Harness):
     def stimulus(self, rng, t, consts):
         d = dict(consts)
         d["rx_ready"] = int(rng.random() < 0.7)
+        d["tx_valid"] = int(rng.random() < 0.8)
         return d
 
 
@@ -287,8 +296,8 @@ def queries(tier):
         "rx_byte": dict(z, s0_kind=KIND_OUT, s0_ep=4, s0_dpid=0, s0_olen=2, s0_flag=0),
         "rx_tracked": dict(z, s0_kind=KIND_OUT, s0_ep=4, s0_dpid=0, s0_olen=2, s0_flag=0, s1_kind=KIND_OUT, s1_ep=4, s1_dpid=1,
                            s1_olen=2, s1_flag=0, k=2),
-        "tx_packet": dict(z, s0_kind=KIND_IN, s0_ep=4, s0_flag=1),
-        "tx_second_packet": dict(z, s0_kind=KIND_IN, s0_ep=4, s0_flag=1, s1_kind=KIND_IN, s1_ep=4, s1_flag=1),
+        "tx_packet": dict(z, s0_kind=KIND_IN, s0_ep=4, s0_flag=1, tx_valid=1),
+        "tx_second_packet": dict(z, s0_kind=KIND_IN, s0_ep=4, s0_flag=1, s1_kind=KIND_IN, s1_ep=4, s1_flag=1, tx_valid=1),
     }
     for hd in hints.values():
         for i in range(3):
@@ -332,7 +341,7 @@ def queries(tier):
         return "".join(names), len(names), layer
     CTRL = ["device_descriptor", "other_requests_stalled", "line_coding_data_ack", "line_coding_status"]
     RXA = ["rx_order", "rx_count", "rx_lost", "out_handshake"]
-    TXA = ["tx_order"]
+    TXA = ["tx_order", "tx_progress"]
     plan = [  # (cube, assertions)
         (cube("S", "Z"), CTRL), (cube("S", "z"), CTRL), (cube("s", "Z"), CTRL),
         (cube("S", "L", "Z"), CTRL), (cube("S", "l", "Z"), CTRL), (cube("S", "S", "Z"), CTRL),
@@ -350,7 +359,7 @@ def queries(tier):
     O["D"] = dict(opt(KIND_SETUP, 0, 0), data=0x0000000400000102)      # 02 01 00 00 04 00 00 00
     for cb in (cube("C", "Z", "P1"), cube("C", "Z", "Q1"), cube("D", "Z", "Q1"), cube("D", "Z", "P1")):
         name, ns, layer = cb
-        qs.append(Query(f"bmc_tog_{name}", (lambda ns=ns: SerialHarness(ns, tog0=True)), SLOT * ns + 12, layer=layer,
+        qs.append(Query(f"bmc_tog_{name}", (lambda ns=ns: SerialHarness(ns, tog0=True)), SLOT * ns + 12, layer=dict(layer, tx_valid=1),
                         asserts=RXA, covers=[], timeout=900, split=False, tactic="portfolio",
                         desc=f"transactions {name} from an arbitrary expected OUT toggle (C/D = ClearFeature(ENDPOINT_HALT) "
                              "for the IN / OUT side of endpoint 4)"))
@@ -366,7 +375,15 @@ def queries(tier):
         ]
     for (name, ns, layer), asserts in plan:
         fac = (lambda ns=ns: SerialHarness(ns))
-        qs.append(Query(f"bmc_{name}", fac, SLOT * ns + 12, layer=layer, asserts=asserts, covers=[], timeout=900, split=False,
-                        tactic="portfolio", desc=f"transactions {name} against the whole serial device"))
+        # the producer's timing (tx.valid) is free only for the progress clause: with it free, the byte-order clause over two
+        # IN packets is undecided after 900 s, and with a saturated producer the progress clause cannot see a byte that
+        # arrives in the very cycle of the host's ACK
+        qs.append(Query(f"bmc_{name}", fac, SLOT * ns + 12, layer=dict(layer, tx_valid=1),
+                        asserts=[a for a in asserts if a != "tx_progress"], covers=[], timeout=900, split=False,
+                        tactic="portfolio", desc=f"transactions {name} against the whole serial device (tx stream always valid)"))
+        if "tx_progress" in asserts:
+            qs.append(Query(f"bmc_{name}_txfree", fac, SLOT * ns + 12, layer=layer, asserts=["tx_progress"], covers=[],
+                            timeout=900, split=False, tactic="portfolio",
+                            desc=f"transactions {name}, tx stream valid free every cycle: a buffered full packet is sent"))
     qs.append(Query("cosim_device", f, 0, kind="cosim", cosim_cycles=120 if tier == "quick" else 400))
     return qs
